@@ -55,7 +55,7 @@ def extra_guards(w, h, block):
     return out
 
 
-def run(ctx, w, embedded=False):
+def _run(ctx, w, embedded=False):
     S = shared.screen(w)
     R = shared.roles(w)
     E = w.E
@@ -310,3 +310,10 @@ class _Quiet:
         if k in ("explanation", "decided", "not_decided", "exhaustive"):
             return
         setattr(self._c, k, v)
+
+
+def run(ctx, w, embedded=False):
+    _run(ctx, w, embedded)
+    if not embedded:
+        from rules import c03
+        shared.embed(ctx, w, c03.dispatch_rules)
